@@ -31,16 +31,37 @@ theorem C10_optional_blank_eq_absent (hdr row : List Str) (name : Str) :
   · intro h; simp only [optRead, cell, h]
   · intro k h hb; simp only [optRead, cell, h]; exact hb
 
-/-- the `ReadOr` defaults in the source are the ones the model uses: route colour FFFFFF, text colour
-    000000, pickup/drop-off type "0", timepoint "1", and "" for the fields whose enum decoder
-    supplies the default -/
+/-- the non-empty `ReadOr` defaults the documentation names: route colour FFFFFF, text colour 000000,
+    pickup / drop-off type "0", timepoint "1" -/
+def documentedDefaults : List (Str × Option Str) :=
+  [(c_route_color, some d_FFFFFF), (c_route_text_color, some d_000000), (c_pickup_type, some [48]), (c_drop_off_type, some [48]),
+   (c_timepoint, some [49])]
+
+/-- a column whose default comes from its enum decoder is read plainly or with the empty default -/
+def readsEmpty (l : List (Str × Option Str)) (col : Str) : Bool :=
+  match alookup col l with
+  | none => true
+  | some d => d == some []
+
+/-- **the `ReadOr` defaults in the source are the ones the model uses** – stated so that it survives
+    re-spelling (`ReadOr("")` and `Read()` are the same read; the order of the reads is immaterial): the five
+    documented non-empty defaults are there with their values; the columns whose default the enum decoder
+    supplies are read with the empty default; and no row loop has any other constant default -/
 theorem C10_readOr_defaults_pinned :
-    Gen.Columns.parseRoutes_readOr = [(c_route_color, some d_FFFFFF), (c_route_text_color, some d_000000),
-      (c_continuous_pickup, some []), (c_continuous_drop_off, some [])] ∧
-    Gen.Columns.parseScheduledStopTimes_readOr = [(c_pickup_type, some [48]), (c_drop_off_type, some [48]),
-      (c_continuous_pickup, some []), (c_continuous_drop_off, some []), (c_timepoint, some [49])] ∧
-    Gen.Columns.parseScheduledTrips_readOr = [(c_direction_id, some []), (c_bikes_allowed, some [])] ∧
-    Gen.Columns.parseAgencies_readOr = [(c_agency_id, none)] := by decide
+    alookup c_route_color Gen.Columns.parseRoutes_readOr = some (some d_FFFFFF) ∧
+    alookup c_route_text_color Gen.Columns.parseRoutes_readOr = some (some d_000000) ∧
+    alookup c_pickup_type Gen.Columns.parseScheduledStopTimes_readOr = some (some [48]) ∧
+    alookup c_drop_off_type Gen.Columns.parseScheduledStopTimes_readOr = some (some [48]) ∧
+    alookup c_timepoint Gen.Columns.parseScheduledStopTimes_readOr = some (some [49]) ∧
+    readsEmpty Gen.Columns.parseRoutes_readOr c_continuous_pickup = true ∧
+    readsEmpty Gen.Columns.parseRoutes_readOr c_continuous_drop_off = true ∧
+    readsEmpty Gen.Columns.parseScheduledStopTimes_readOr c_continuous_pickup = true ∧
+    readsEmpty Gen.Columns.parseScheduledStopTimes_readOr c_continuous_drop_off = true ∧
+    readsEmpty Gen.Columns.parseScheduledTrips_readOr c_direction_id = true ∧
+    readsEmpty Gen.Columns.parseScheduledTrips_readOr c_bikes_allowed = true ∧
+    (Gen.Columns.parseRoutes_readOr ++ Gen.Columns.parseScheduledStopTimes_readOr ++ Gen.Columns.parseScheduledTrips_readOr).all
+      (fun p => p.2 == some [] || documentedDefaults.contains p) = true ∧
+    Gen.Columns.parseAgencies_readOr.all (fun p => p == (c_agency_id, none)) = true := by decide
 
 /-- **the defaults are the GTFS defaults**: regular pickup and drop-off, no continuous pickup or
     drop-off, recommended transfer, frequency-based exact_times, unspecified direction, wheelchair
